@@ -101,6 +101,18 @@ CLAIMED["C04"] = {
     "ref": "DESIGN.md section 5 (C04)",
 }
 
+CLAIMED["C05"] = {
+    "text": "parent() is proved for all inputs (lowest PID -> None; Process(ppid) unless that PID now belongs to a "
+            "younger process or vanished). children()/children(recursive=True) are checked by a bounded enumeration of "
+            "every parent-link graph over four PIDs (forests, self-loops, cycles, unlisted parents) x start-time "
+            "orderings, with children vanishing right after the snapshot, against a reference closure; termination is "
+            "watched by an alarm (labelled bounded).",
+    "note": "the graph walk is not proved (symbolic defaultdict/set/stack manipulation is outside the VC generator); "
+            "parents() termination not claimed.",
+    "ref": "DESIGN.md section 5 (C05)",
+    "category": "proof",
+}
+
 NOT_YET = "check not built yet (work in progress, see DESIGN.md section 7)"
 NA = {}
 
